@@ -224,6 +224,19 @@ def separated(cx: Ctx, w: Write) -> Tuple[str, str]:
             return 'refuted', (f'the agent is drawn from `{alist.text[:60]}`, which is not '
                                f'filtered to Floor cells and contains the {w.cls} cell '
                                f'({wcell[1]}, {wcell[2]})')
+    # the agent was drawn *before* the write, from a list that contains the cell written later
+    # (the Floor filter of that list says nothing about objects placed afterwards)
+    if alist is not None and alist.kind in ('floor', 'inside', 'all') and alist.time < w.time \
+            and reg and reg[0] == 'cell' and reg[1] is not None and reg[2] is not None:
+        wc = ('cell', reg[1], reg[2])
+        in_list = alist.kind == 'all' or interior(cx, reg[1], reg[2])
+        excluded = alist.excl_cell is not None and alist.excl_cell[1] == reg[1] \
+            and alist.excl_cell[2] == reg[2]
+        if in_list and not excluded and \
+                (alist.kind != 'floor' or cell_is_floor_at(cx, wc, alist.time, BAD)):
+            return 'refuted', (f'the agent is drawn from `{alist.text[:60]}` before the {w.cls} '
+                               f'is placed on ({reg[1]}, {reg[2]}), a cell of that list: the '
+                               f'agent can start on it')
     # (b) written cells drawn from a list excluding the agent's cell
     lst: Optional[ListInfo] = None
     if reg and reg[0] == 'elem':
